@@ -94,3 +94,33 @@ Proof.
   - rewrite E1, app_nil_r. split; [exact Hne|].
     eapply Forall_impl; [|exact Hall]. intros b [d [Hd ->]]. apply (dig_not_minus d Hd).
 Qed.
+
+(* negative numbers *)
+Theorem parse_format_int z : - two63 <= z < two63 -> parse_int (format_int z) = Some z.
+Proof.
+  intro H. destruct (Z_lt_ge_dec z 0) as [Hn|Hp]; [|apply parse_format_nonneg; lia].
+  unfold format_int. assert (E : (z <? 0) = true) by lia. rewrite E.
+  assert (H0 : 0 <= - z) by lia.
+  destruct (digits_pos_spec 40 (- z) [] H0) as [ds [E1 [Hne [Hall Hv]]]].
+  - unfold two63 in H. change (10 ^ Z.of_nat 40) with 10000000000000000000000000000000000000000. lia.
+  - lia.
+  - rewrite E1, app_nil_r. unfold parse_int, parse_signed.
+    change (byte_eqb x2d x2d) with true. cbv iota.
+    destruct ds as [|b r]; [congruence|].
+    rewrite Hv. cbn [option_map].
+    replace (- (0 * 10 ^ Z.of_nat (length (b :: r)) + - z)) with z by lia.
+    assert (G : in_int64 z = true) by (unfold in_int64, two63 in *; lia).
+    now rewrite G.
+Qed.
+Lemma format_int_noLF z : - two63 <= z < two63 ->
+  format_int z <> [] /\ Forall (fun b => byte_eqb b x0a = false) (format_int z).
+Proof.
+  intro H. destruct (Z_lt_ge_dec z 0) as [Hn|Hp]; [|apply format_int_digits; lia].
+  unfold format_int. assert (E : (z <? 0) = true) by lia. rewrite E.
+  assert (H0 : 0 <= - z) by lia.
+  destruct (digits_pos_spec 40 (- z) [] H0) as [ds [E1 [Hne [Hall Hv]]]].
+  - unfold two63 in H. change (10 ^ Z.of_nat 40) with 10000000000000000000000000000000000000000. lia.
+  - lia.
+  - rewrite E1, app_nil_r. split; [discriminate|]. constructor; [reflexivity|].
+    eapply Forall_impl; [|exact Hall]. intros b [d [Hd ->]]. apply (dig_not_minus d Hd).
+Qed.
